@@ -100,8 +100,15 @@ type Plan struct {
 	// SigAt: deliver a simulated SIGINT when the i-th mutating operation of the
 	// main task is reached (the operation itself is then scheduled against the
 	// handler task by Sched).
-	SigAt int    `json:"sig_at,omitempty"`
-	Sched uint64 `json:"sched,omitempty"`
+	SigAt int `json:"sig_at,omitempty"`
+	// SigAtRead: deliver the SIGINT at the j-th read of the main task counted
+	// from the moment the handler is installed (the copy loop of gxz).
+	SigAtRead int `json:"sig_at_read,omitempty"`
+	// SigRemoveAfter / SigExitAfter: the handler performs its first operation
+	// (removing the temporary file) after this many further operations of the
+	// main task, and its second (exit 7) after this many more.
+	SigRemoveAfter int `json:"sig_remove_after,omitempty"`
+	SigExitAfter   int `json:"sig_exit_after,omitempty"`
 }
 
 // World is the state of the simulated machine for one invocation history.
@@ -122,6 +129,10 @@ type World struct {
 	TTY     bool // stdout is a terminal
 	nextFd  uintptr
 	Fired   map[string]int // fault kinds that fired
+	// ArmedReads counts reads of the main task while a signal handler listens.
+	ArmedReads int
+	// ArmedMuts lists the mutating operations performed while a handler listened.
+	ArmedMuts []int
 	// signal simulation
 	sig *sigState
 }
@@ -162,7 +173,11 @@ type ExitPanic struct{ Code int }
 // Exit terminates the simulated process.
 func Exit(code int) {
 	w := world()
+	w.gate(gateOther)
 	w.mu.Lock()
+	if w.task() == 1 && !w.Dead && !w.Exited {
+		w.handlerExit(code) // does not return
+	}
 	if w.Dead {
 		w.mu.Unlock()
 		panic(Killed{})
@@ -196,7 +211,21 @@ func errno(name string) syscall.Errno {
 // enter is called at the start of every operation; it unwinds dead processes
 // and lets the signal scheduler decide which task proceeds.
 func (w *World) enter(mutating bool) {
-	w.gate(mutating)
+	k := gateOther
+	if mutating {
+		k = gateMut
+	}
+	w.enterKind(k)
+}
+
+const (
+	gateOther = iota
+	gateMut
+	gateRead
+)
+
+func (w *World) enterKind(kind int) {
+	w.gate(kind)
 	w.mu.Lock()
 	if w.Dead || w.Exited {
 		w.mu.Unlock()
@@ -211,6 +240,9 @@ func (w *World) enter(mutating bool) {
 func (w *World) mutate(kind string) (fail error, killAfter bool, mid int) {
 	w.NMut++
 	i := w.NMut
+	if w.sig != nil && w.sig.armed && !w.sig.delivered {
+		w.ArmedMuts = append(w.ArmedMuts, i)
+	}
 	mid = -1
 	if w.Plan.KillAt == i {
 		switch w.Plan.KillWhen {
@@ -416,7 +448,7 @@ func (f *File) Stat() (FileInfo, error) {
 
 func (f *File) Read(p []byte) (int, error) {
 	w := world()
-	w.enter(false)
+	w.enterKind(gateRead)
 	defer w.mu.Unlock()
 	if f.fd == 0 {
 		if w.stdinAt >= len(w.Stdin) {
